@@ -143,9 +143,67 @@ def gridVerdict (isCtor : Bool) : P String := do
   | "err!" :: c => pure ("fail internal " ++ " ".intercalate c)
   | _ => throw "answer?"
 
+def pQS : P QS := do
+  match (← tok) with
+  | "_" => pure .none
+  | "L0" => pure (.notDict false)
+  | "L1" => pure (.notDict true)
+  | "D" => do let bs ← pList pBool; pure (.dict bs)
+  | t => throw s!"qual? {t}"
+
+def collOp : Op := do
+  let cs ← pList (do let x ← pInt; let y ← pInt; let g ← pNat; let p ← pBool; pure ((x, y, g, p) : ChildS))
+  let q ← pQS; pArrow
+  let o ← pOut (do let x ← pInt; let y ← pInt; pure (x, y))
+  pure (verdict (okMkColl cs q o)
+    (match o with | .ok _ => "illformed" | .refused => "refused-valid" | .internal => "internal"))
+
 def ops : List (String × Op) := [
   ("ctor", gridVerdict true),
   ("call", gridVerdict false),
+  ("mkvar", do
+      let a ← pInt; let b ← pInt; let alt ← tok; pArrow
+      let o ← pOut (do let x ← pInt; let y ← pInt; pure (x, y))
+      pure (verdict (okMkVar "ATGCN".toList a b (alt.toList.drop 1) o))),
+  ("mkfeat", do
+      let _ ← pStrand; let ss ← pList pInt; let es ← pList pInt; let q ← pQS; pArrow
+      let o ← pOut (do let x ← pInt; let y ← pInt; pure (x, y))
+      pure (verdict (okMkFeature ss es q o)
+        (match o with
+         | .ok (x, y) => if !validBlocks ss es then "illformed built-from-invalid" else
+                           (if x > y then "illformed start>end" else "illformed bounds")
+         | .refused => "refused-valid" | .internal => "internal"))),
+  ("mkgene", collOp),
+  ("mkfcoll", collOp),
+  ("mkannot", do
+      let a ← optOf intOf; let b ← optOf intOf
+      let kids ← pList (do let x ← pInt; let y ← pInt; let g ← pNat; pure ((x, y, g, false) : ChildS)); pArrow
+      let o ← pOut (do
+        let t ← tok
+        if t = "E" then pure none else do let x ← intOf t; let y ← pInt; pure (some (x, y)))
+      pure (verdict (okMkAnnot a b kids o)
+        (match o with
+         | .ok _ => if !distinctNat (kids.map (·.2.2.1)) then "illformed duplicate-children" else "illformed"
+         | .refused => "refused-valid" | .internal => "internal"))),
+  ("mkcodon", do
+      let t ← tok; pArrow
+      let o ← pOut (do let v ← tok; pure v.toList)
+      pure (verdict (okMkCodon "ATUCGNWSMKRYBDHV".toList (t.toList.drop 1) o))),
+  ("fromint", do
+      let which ← tok; let v ← pInt; pArrow
+      let members : List Int := if which == "strand" then [1, -1, 0] else [-1, 0, 1, 2]
+      let o ← pOut (do
+        let t ← tok
+        if which == "strand" then
+          (match t with
+           | "+" => pure (1 : Int) | "-" => pure (-1) | "." => pure 0
+           | _ => throw "strand?")
+        else intOf t)
+      pure (verdict (okFromInt members v o))),
+  ("fromsym", do
+      let t ← tok; pArrow
+      let o ← pOut pStrand
+      pure (verdict (okFromSymbol (t.toList.drop 1) o))),
   ("sappend", do
       let n ← pNat
       let st1 ← pStrand; let a1 ← pInt; let b1 ← pInt
@@ -190,7 +248,8 @@ def ops : List (String × Op) := [
       match o with
       | none => throw "answer?"
       | some o =>
-          pure (verdict (okPcons op pds o)
+          let rule : PRule := if op == "fsi" then .fsi else if op == "mkpar" then .mkpar else .binary
+          pure (verdict (okPcons rule pds o)
             (match o with
              | .okWf => "illformed accepted-mismatched-parents"
              | .illformed => "illformed " ++ " ".intercalate (a.drop 2)
